@@ -17,8 +17,6 @@ EXCUSES = {
     'rtu-one-frame-per-call': ({'missing'}, 'RTU framer handles one frame per read: later frames of a pipelined read are answered late or never'),
     'binary-pipelined-frame-skipped': ({'missing'}, 'binary framer skips every second back-to-back frame'),
     'foreign-unit-frame-discards-rest-of-read': ({'missing'}, 'a frame for a non-hosted unit makes the framer discard the rest of that read'),
-    'tls-framer-keyerror-in-multi-unit-mode': ({'missing', 'escaped:KeyError', 'closed'}, "TLS framer has no 'uid' header: KeyError in multi-unit mode"),
-    'twisted-udp-dead': ({'missing', 'escaped:TypeError'}, 'Twisted UDP protocol raises TypeError on every datagram'),
     'binary-delimiter-in-body': ({'missing', 'closed'}, 'a binary request frame containing 0x7B/0x7D is not received intact'),
     'twisted-listen-only-is-permanent': ({'missing'}, 'Twisted front-end stays silent after force-listen-only'),
 }
@@ -98,6 +96,7 @@ def run(run):
     if run.thorough and run.shard in (None, 0):
         from . import loopback
         loopback.histories(run, r, uniq, 160)
+        loopback.datagram_histories(run, r, uniq, 120)
     run.floor('histories per front-end (min)', min(run.counters.get('histories:%s' % f, 0) for f in FE.ALL), 80 if run.shard is None else 5)
     run.floor('clean-region histories', run.counters.get('clean_region_cases', 0), 500 if run.shard is None else 30)
     run.floor('responses matched to requests', run.counters.get('responses_matched', 0), 3000 if run.shard is None else 200)
